@@ -87,6 +87,11 @@ CASES = [
      "    let block_shape = shape.reset().increment_block_indent();\n    let block = format_block(ctx, do_block.block(), block_shape);\n    let end_token = format_end_token(\n        ctx,\n        do_block.end_token(),\n        EndTokenType::IndentComments,\n        shape,\n    )\n    .update_trivia(leading_trivia, trailing_trivia);\n\n    do_block\n        .to_owned()\n        .with_do_token(do_token)\n        .with_block(block)\n        .with_end_token(end_token)",
      "    let closing = format_end_token(\n        ctx,\n        do_block.end_token(),\n        EndTokenType::IndentComments,\n        shape,\n    )\n    .update_trivia(leading_trivia, trailing_trivia);\n    let inner_shape = shape.reset().increment_block_indent();\n    let body = format_block(ctx, do_block.block(), inner_shape);\n\n    do_block\n        .to_owned()\n        .with_block(body)\n        .with_do_token(do_token)\n        .with_end_token(closing)", "bodies", "default", "ok"),
     ("header: a comment behind `while` no longer forces the multiline header", "src/formatters/stmt.rs", "    let require_multiline_expression = singleline_shape.over_budget()\n        || while_block\n            .while_token()\n            .has_trailing_comments(CommentSearch::All)\n        || while_block", "    let require_multiline_expression = singleline_shape.over_budget()\n        || while_block", "bodies", "default", "C01.header_keyword_closed"),
+    ("definition: a local function always gets a space behind its name", "src/formatters/functions.rs", "    let formatted_name = format_token_reference(ctx, local_function.name(), shape)\n        .update_trailing_trivia(FormatTriviaType::Append(function_definition_trivia));", "    let formatted_name = format_token_reference(ctx, local_function.name(), shape)\n        .update_trailing_trivia(FormatTriviaType::Append(vec![Token::new(TokenType::spaces(1))]));", "bodies", "default", "C11.definition_space"),
+    ("definition: a function declaration is rebuilt around an empty body", "src/formatters/functions.rs", "    FunctionDeclaration::new(formatted_function_name)\n        .with_function_token(function_token)\n        .with_body(function_body)", "    FunctionDeclaration::new(formatted_function_name)\n        .with_function_token(function_token)", "bodies", "default", "C02.function_declaration_same"),
+    ("call chain: a method call behind a call no longer counts as obscuring", "src/formatters/functions.rs", "            Some(Suffix::Index(_)) | Some(Suffix::Call(Call::MethodCall(_)))\n        ) {\n            FunctionCallNextNode::ObscureWithoutParens", "            Some(Suffix::Index(_))\n        ) {\n            FunctionCallNextNode::ObscureWithoutParens", "args", "default", "C11.call_chain_loop"),
+    ("call chain: the obscure flag is taken from the suffix itself instead of the next one", "src/formatters/functions.rs", "        let ambiguous_next_suffix = if matches!(\n            suffixes.peek(),\n            Some(Suffix::Index(_)) | Some(Suffix::Call(Call::MethodCall(_)))\n        ) {", "        let ambiguous_next_suffix = if matches!(\n            Some(suffix),\n            Some(Suffix::Index(_)) | Some(Suffix::Call(Call::MethodCall(_)))\n        ) {", "args", "default", "C11.call_chain_loop"),
+    ("harmless: a call chain hangs at every call (layout only)", "src/formatters/functions.rs", "        let will_hang = must_hang\n            || (should_hang", "        let will_hang = must_hang\n            || (true", "args", "default", "ok"),
     # a predicate moved into a new helper next to the function: the helper is inlined (gen.InlineHelper) and verified as part of the caller
     ("helper: the sugar decision moved into a helper that forgets the Input exception", FU, [FA_DOC, FA_STR, FA_TAB], [HELPER_BAD + FA_DOC, FA_STR_H, FA_TAB_H], "args", "default", "C11.input_keeps_form"),
     ("harmless: the sugar decision moved into a helper (with a binding and an early return)", FU, [FA_DOC, FA_STR, FA_TAB], [HELPER_OK + FA_DOC, FA_STR_H, FA_TAB_H], "args", "default", "ok"),
